@@ -100,7 +100,7 @@ no_bytes_method:
 		if size < 0 {
 			return nil, ExceptionNewf(ValueError, "negative count")
 		}
-		return make(Bytes, size), nil
+		return newBytesSized(size)
 	}
 
 	// If it's not unicode, there can't be encoding or errors
@@ -109,6 +109,18 @@ no_bytes_method:
 	}
 
 	return BytesFromObject(x)
+}
+
+// Make a Bytes of n zero bytes
+//
+// Returns a MemoryError if n is more than the Go runtime can allocate
+func newBytesSized(n int) (b Bytes, err error) {
+	defer func() {
+		if r := recover(); r != nil {
+			err = ExceptionNewf(MemoryError, "cannot allocate %d bytes", n)
+		}
+	}()
+	return make(Bytes, n), nil
 }
 
 // Converts an object into bytes
